@@ -4,6 +4,8 @@ scikit-image's radon and iradon functions fully implemented in Torch.
 Reference: van der Walt, S., et al. (2014). scikit-image: image processing in Python. PeerJ, 2, e453.
 """
 
+import math
+
 import torch
 import torch.nn.functional as F
 
@@ -118,8 +120,10 @@ def iradon_torch(
         output_size = N if circle else int(torch.floor(torch.sqrt(torch.tensor(N**2 / 2.0))))
 
     # Padding for FFT
+    # scikit-image pads the sinogram to the diagonal (circle mode) before choosing the FFT size
+    n_fft = int(math.ceil(math.sqrt(2) * N)) if circle else N
     padded_size = max(
-        64, int(2 ** torch.ceil(torch.log2(torch.tensor(2 * N, dtype=torch.float32))))
+        64, int(2 ** torch.ceil(torch.log2(torch.tensor(2 * n_fft, dtype=torch.float32))))
     )
     pad_y = padded_size - N
     sinograms_padded = F.pad(sinograms, (0, pad_y))  # [B, A, padded]
